@@ -1,6 +1,10 @@
 // XSLT-level harness driving XSLTEngineImpl DIRECTLY (as TestXSLT/process.cpp does), so that processor flags that
 // XalanTransformer does not expose can be set: "quiet": false selects the conflict-REPORTING template lookup path.
 // usage: xv_xsltd cases.ndjson > trace.ndjson      (same case and event format as xslt.cpp)
+#include <sys/time.h>
+#include <signal.h>
+#include <unistd.h>
+#include <string.h>
 #include "xsltrec.hpp"
 #include <xalanc/XPath/XObjectFactoryDefault.hpp>
 #include <xalanc/XPath/XPathFactoryBlock.hpp>
@@ -20,14 +24,24 @@ struct QuietProblems : public ProblemListener {
     void problem(eSource, eClassification, const XalanDOMString& msg, const XalanNode*) override { text += toUtf8(msg) + "\n"; }
 };
 
+// a transformation that does not finish within its CPU budget is a hang: say so on stderr and leave (exit code 3); the driver
+// reports the case without a Done event as a violation
+static void onHang(int) { static const char m[] = "HANG: transformation exceeded its CPU budget (60 s)\n"; ssize_t r = write(2, m, sizeof m - 1); (void)r; fflush(stdout); _exit(3); }
+static void budget(int seconds) {
+    struct itimerval t; memset(&t, 0, sizeof t); t.it_value.tv_sec = seconds;
+    setitimer(ITIMER_VIRTUAL, &t, 0);
+}
+
 int main(int argc, char** argv) {
     if (argc < 2) { fprintf(stderr, "usage: %s cases.ndjson\n", argv[0]); return 2; }
+    signal(SIGVTALRM, onHang);
     Platform platform;
     XalanTransformer::initialize();
     {
         auto lines = readLines(argv[1]);
         for (auto& line : lines) {
             J c = parseJson(line);
+            budget(60);
             const long long id = c.num("id");
             const std::string dir = c.str("dir");
             printf("{\"e\":\"Reset\",\"id\":%lld}\n", id);
